@@ -226,3 +226,31 @@ v("C01,C05", J21, "            self.__notify_subscribers(mid.priority, pgn.value
   "            self.__notify_subscribers(mid.priority, pgn.value & 0x1FF00, mid.source_address, ParameterGroupNumber.Address.GLOBAL, timestamp, data)\n            return\n\n        # peer to peer", "break", "PDU2 delivered without its group extension")
 v("C01", J21, "            mid = MessageId(priority=priority, parameter_group_number=pgn.value, source_address=src_address)\n            self.__send_message(mid.can_id, True, data)\n        else:",
   "            mid = MessageId(priority=priority, parameter_group_number=pgn.value & 0xFFFF, source_address=src_address)\n            self.__send_message(mid.can_id, True, data)\n        else:", "break", "data page dropped from single frames")
+
+# ---------------------------------------------------------------- added after the second seeded round
+v("C14", CA, "        if pgn==j1939.ParameterGroupNumber.PGN.ADDRESSCLAIM:", "        if (pgn & 0x1FF00)==j1939.ParameterGroupNumber.PGN.ADDRESSCLAIM:", "break", "claim test ignores the low byte / EDP bit (seeded C14A)")
+v("C14", CA, "        if pgn==j1939.ParameterGroupNumber.PGN.ADDRESSCLAIM:", "        if 0xEE00 == pgn:", "keep", "mirrored, literal")
+v("C05,C14", CA, "        return (self.device_address == dest_address)", "        return (self._device_address_preferred == dest_address)", "break", "acceptance compares the preferred address (seeded C14B)")
+v("C05,C14", CA, "        return (self.device_address == dest_address)", "        return dest_address == self._device_address", "keep", "held address field instead of the property (equal under NORMAL)")
+v("C11,C06", J22, "            if buf['deadline'] > now:\n                if next_wakeup > buf['deadline']:\n                    next_wakeup = buf['deadline']\n            else:\n                # deadline reached\n                frame_format, session_num",
+  "            if buf['deadline'] > now:\n                next_wakeup = buf['deadline']\n            else:\n                # deadline reached\n                frame_format, session_num", "break", "running minimum lost in the multi-PG scan (seeded C11B)")
+v("C11,C06", J22, "            if buf['deadline'] > now:\n                if next_wakeup > buf['deadline']:\n                    next_wakeup = buf['deadline']\n            else:\n                # deadline reached\n                frame_format, session_num",
+  "            if buf['deadline'] > now:\n                next_wakeup = min(next_wakeup, buf['deadline'])\n            else:\n                # deadline reached\n                frame_format, session_num", "keep", "min() instead of the conditional store")
+v("C13", CA, "                    self._device_address_state = ControllerApplication.State.WAIT_VETO\n                    self._send_address_claimed(self._device_address_announced)", "                    self._send_address_claimed(self._device_address_announced)\n                    self._device_address_state = ControllerApplication.State.WAIT_VETO", "break", "state leaves NORMAL only after the re-claim is sent (original defect D18)")
+v("C13", CA, "                    self._device_address_state = ControllerApplication.State.CANNOT_CLAIM\n                    self._device_address = None\n                    self._send_address_claimed(j1939.ParameterGroupNumber.Address.NULL) # send CANNOT CLAIM",
+  "                    self._send_address_claimed(j1939.ParameterGroupNumber.Address.NULL) # send CANNOT CLAIM\n                    self._device_address_state = ControllerApplication.State.CANNOT_CLAIM\n                    self._device_address = None", "break", "cannot-claim sent before the state changes (seeded C13A)")
+v("C04,C15", "name.py", "self.manufacturer_code = (value >> 21) & ((2 ** 11) - 1)", "self.manufacturer_code = (value >> 21) & ((2 ** 10) - 1)", "break", "manufacturer code bit 10 dropped from received NAMEs (seeded C04B)")
+v("C05,C11,C15", "parameter_group_number.py", "self.pdu_format>=0 and self.pdu_format<=239", "self.pdu_format>=0 and self.pdu_format<239", "break", "PF 239 neither PDU1 nor PDU2 (seeded C05B/C15B)")
+v("C05,C15", "parameter_group_number.py", "self.pdu_format>=0 and self.pdu_format<=239", "self.pdu_format < 240", "keep", "respelled")
+v("C16", DM, "        if dtc != None:\n            self._dtc = dtc", "        if dtc:\n            self._dtc = dtc", "break", "code 0 takes the encode branch (seeded C16A)")
+v("C16", DM, "        if dtc != None:\n            self._dtc = dtc", "        if dtc is not None:\n            self._dtc = dtc", "keep", "is not None")
+v("C16", DM, "        self._data = DtcLamp().get_data(self._lamp_status)", "        self._data[:] = DtcLamp().get_data(self._lamp_status)", "break", "payload rebuilt in place (seeded C16B)")
+v("C18", M, "                            if self.server.verify_key(\n                                self.server.seed, self.server.key\n                            ):", "                            if self.server.verify_key(\n                                self.server.key, self.server.seed\n                            ):", "break", "seed and key swapped in the verification (seeded C18A)")
+v("C17,C18,C19", S, "        self._busy = False\n        self.address = None\n        self.length = 8", "        self._busy = False\n        self.length = 8", "break", "reset_query keeps the pointer (seeded C18B)")
+v("C19", S, "            (self.sa is not None and sa != self.sa)\n            or (", "            (self.sa and sa != self.sa)\n            or (", "break", "requester 0x00 is 'no requester' (seeded C19A)")
+v("C19", M, "                case DMState.REQUEST_STARTED:", "                case DMState.REQUEST_STARTED | DMState.WAIT_RESPONSE:", "break", "facade handles DM14 again while waiting for respond() (seeded C19B)")
+v("C08,C07", J22, "            buf = self._rcv_buffer.get(bufid)\n            if buf is None:\n                # removed by the receive path since the snapshot was taken\n                continue", "            if bufid not in self._rcv_buffer:\n                continue\n            buf = self._rcv_buffer[bufid]", "break", "check-then-act (seeded C08A)")
+v("C08", J22, "                            # state is ready for the reply - now send\n                            self.__send_tp_dt(buf['src_address'], buf['dest_address'], buf['session'], package+1, buf['data'][package])\n",
+  "                            # state is ready for the reply - now send\n                            self.__send_tp_dt(buf['src_address'], buf['dest_address'], buf['session'], package+1, buf['data'][package])\n                            buf['deadline'] = buf['deadline']\n", "break", "FD session written after the DT send (original defect D17)")
+v("C03,C11", J22, "        for _ in range(4):  self._LUT_FD_DLC.append(24)\n        for _ in range(8):  self._LUT_FD_DLC.append(32)", "        for _ in range(8):  self._LUT_FD_DLC.append(24)\n        for _ in range(4):  self._LUT_FD_DLC.append(32)", "break", "LUT rows swapped: lengths 25..28 map to 24 (seeded C03B)")
+v("C11", J22, "        MULTI_PG = 60", "        MULTI_PG = 64", "keep", "unused constant changed alone")
